@@ -148,5 +148,13 @@ func init() {
 		rn("C11", "compiler/expressions.go", "funcContext.internalize", "u", "und"),
 		rn("C03", "compiler/statements.go", "funcContext.translateStmt", "channels", "chans"),
 		rn("C13", "nosync/mutex.go", "WaitGroup.Add", "delta", "d"),
+		rn("C02", "compiler/functions.go", "funcContext.translateFunctionBody", "localVars", "vars"),
+		rn("C02", "compiler/internal/analysis/info.go", "Info.propagateFunctionBlocking", "caller", "fn"),
+		rn("C02", "compiler/utils.go", "funcContext.handleEscapingVars", "obj", "v"),
+		rn("C04", "compiler/decls.go", "funcContext.funcDecls", "inst", "in"),
+		rn("C04", "compiler/internal/typeparams/map.go", "InstanceMap.Set", "key", "k"),
+		rn("C04", "compiler/utils.go", "funcContext.typeOf", "typ", "ty"),
+		rn("C05", "compiler/decls.go", "funcContext.newVarDecl", "init", "in"),
+		rn("C03", "compiler/expressions.go", "funcContext.translateBuiltin", "name", "builtin"),
 	)
 }
